@@ -115,7 +115,7 @@ func escapeTable(fd *eng.FuncDecl) (map[byte]int, *ast.SwitchStmt) {
 			return true
 		}
 		tab := map[byte]int{}
-		hasN := false
+		hasN, hasCR := false, false
 		for _, st := range sw.Body.List {
 			cc := st.(*ast.CaseClause)
 			for _, e := range cc.List {
@@ -129,6 +129,9 @@ func escapeTable(fd *eng.FuncDecl) (map[byte]int, *ast.SwitchStmt) {
 				}
 				if k == 'n' {
 					hasN = true
+				}
+				if k == '\r' {
+					hasCR = true
 				}
 				val := -2
 				// first WriteByte in the clause body decides
@@ -161,12 +164,147 @@ func escapeTable(fd *eng.FuncDecl) (map[byte]int, *ast.SwitchStmt) {
 				tab[byte(k)] = val
 			}
 		}
-		if hasN && len(tab) > len(bestTab) {
+		if (hasN || hasCR) && len(tab) > len(bestTab) {
 			best, bestTab = sw, tab
 		}
 		return true
 	})
+	if best != nil {
+		// one-byte escapes may be kept in a read-only package-level table indexed by the escape character
+		// (tbl[next] or tbl[next].field as the argument of WriteByte)
+		for k, v := range escapeLookupTable(fd, best.Tag) {
+			if _, dup := bestTab[k]; !dup {
+				bestTab[k] = v
+			}
+		}
+	}
 	return bestTab, best
+}
+
+// escapeLookupTable reads `WriteByte(tbl[tag])` / `WriteByte(tbl[tag].f)` where tbl is a package-level array or map
+// literal that is never assigned: the keyed elements are the escapes and their (constant) values what is emitted.
+func escapeLookupTable(fd *eng.FuncDecl, tag ast.Expr) map[byte]int {
+	out := map[byte]int{}
+	info := fd.Pkg.TypesInfo
+	ast.Inspect(fd.Decl.Body, func(n ast.Node) bool {
+		call, ok := n.(*ast.CallExpr)
+		if !ok || len(call.Args) != 1 {
+			return true
+		}
+		if sel, ok := call.Fun.(*ast.SelectorExpr); !ok || sel.Sel.Name != "WriteByte" {
+			return true
+		}
+		arg := call.Args[0]
+		field := ""
+		if se, ok := arg.(*ast.SelectorExpr); ok {
+			field = se.Sel.Name
+			arg = se.X
+		}
+		ix, ok := arg.(*ast.IndexExpr)
+		if !ok || types.ExprString(ix.Index) != types.ExprString(tag) {
+			return true
+		}
+		id, ok := ix.X.(*ast.Ident)
+		if !ok {
+			return true
+		}
+		obj, ok := info.Uses[id].(*types.Var)
+		if !ok || obj.Pkg() == nil || obj.Parent() != obj.Pkg().Scope() {
+			return true
+		}
+		// never assigned anywhere in the package (only its declaration writes it)
+		for _, f := range fd.Pkg.Syntax {
+			assigned := false
+			ast.Inspect(f, func(m ast.Node) bool {
+				if as, ok := m.(*ast.AssignStmt); ok {
+					for _, l := range as.Lhs {
+						root := l
+						for {
+							switch x := root.(type) {
+							case *ast.IndexExpr:
+								root = x.X
+								continue
+							case *ast.SelectorExpr:
+								root = x.X
+								continue
+							}
+							break
+						}
+						if rid, ok := root.(*ast.Ident); ok && info.Uses[rid] == types.Object(obj) {
+							assigned = true
+						}
+					}
+				}
+				return true
+			})
+			if assigned {
+				return true
+			}
+		}
+		for _, f := range fd.Pkg.Syntax {
+			for _, d := range f.Decls {
+				gd, ok := d.(*ast.GenDecl)
+				if !ok {
+					continue
+				}
+				for _, sp := range gd.Specs {
+					vs, ok := sp.(*ast.ValueSpec)
+					if !ok {
+						continue
+					}
+					for i, nm := range vs.Names {
+						if info.Defs[nm] != types.Object(obj) || i >= len(vs.Values) {
+							continue
+						}
+						lit, ok := vs.Values[i].(*ast.CompositeLit)
+						if !ok {
+							continue
+						}
+						for _, el := range lit.Elts {
+							kv, ok := el.(*ast.KeyValueExpr)
+							if !ok {
+								continue
+							}
+							ktv, ok := info.Types[kv.Key]
+							if !ok || ktv.Value == nil {
+								continue
+							}
+							k, _ := constant.Int64Val(ktv.Value)
+							if k < 0 || k > 255 {
+								continue
+							}
+							val := kv.Value
+							if cl, ok := val.(*ast.CompositeLit); ok && field != "" {
+								// struct element: the selected field, keyed or positional
+								if st, ok := info.TypeOf(cl).Underlying().(*types.Struct); ok {
+									for fi := 0; fi < st.NumFields(); fi++ {
+										if st.Field(fi).Name() != field {
+											continue
+										}
+										for ei, e := range cl.Elts {
+											if fkv, ok := e.(*ast.KeyValueExpr); ok {
+												if fid, ok := fkv.Key.(*ast.Ident); ok && fid.Name == field {
+													val = fkv.Value
+												}
+											} else if ei == fi {
+												val = e
+											}
+										}
+									}
+								}
+							}
+							if vtv, ok := info.Types[val]; ok && vtv.Value != nil && vtv.Value.Kind() == constant.Int {
+								v, _ := constant.Int64Val(vtv.Value)
+								out[byte(k)] = int(v)
+							}
+						}
+					}
+				}
+			}
+		}
+		return true
+	})
+	return out
 }
 
 func ruleEscapes(c *eng.Ctx) {
@@ -598,15 +736,28 @@ func ruleComments(c *eng.Ctx) {
 		c.Undec(R, "contentstream.(*Parser).skipWhitespace", token.NoPos, "anchor not found")
 	} else {
 		fn := c.P.Func("contentstream.(*Parser).skipWhitespace")
-		// is '%' tested at all?
+		// is '%' tested at all? The scan may have been moved into a helper of the package
+		// (p.pos = skipBlanks(p.data, p.pos)): the function that tests '%' is the one examined.
 		pct := false
-		eng.Instrs(fn, false, func(in ssa.Instruction) {
-			if b, ok := in.(*ssa.BinOp); ok && b.Op == token.EQL {
-				if k, ok := eng.ConstInt(b.Y); ok && k == '%' {
-					pct = true
+		for _, h := range eng.Cluster(fn, 2) {
+			found := false
+			eng.Instrs(h, false, func(in ssa.Instruction) {
+				if b, ok := in.(*ssa.BinOp); ok && b.Op == token.EQL {
+					if k, ok := eng.ConstInt(b.Y); ok && k == '%' {
+						found = true
+					}
 				}
+			})
+			if found {
+				pct = true
+				if h != fn {
+					if hd := c.P.Decl(eng.FuncName(h)); hd != nil {
+						fd, fn = hd, h
+					}
+				}
+				break
 			}
-		})
+		}
 		if !pct {
 			c.Viol(R, "contentstream.(*Parser).skipWhitespace#comment", fd.Decl.Pos(), "content-stream parser does not skip '%' comments (the document parser does)")
 			return
@@ -654,7 +805,17 @@ func ruleComments(c *eng.Ctx) {
 					}
 				}
 				if keep != nil {
-					cont, err := c.P.ExprByteSet(fd, keep, "p.data[p.pos]", nil)
+					// the current byte: the operand the terminator constants are compared with
+					cur := "p.data[p.pos]"
+					ast.Inspect(keep, func(m ast.Node) bool {
+						if be, ok := m.(*ast.BinaryExpr); ok && (be.Op == token.NEQ || be.Op == token.EQL) {
+							if _, isIdx := be.X.(*ast.IndexExpr); isIdx {
+								cur = types.ExprString(be.X)
+							}
+						}
+						return true
+					})
+					cont, err := c.P.ExprByteSet(fd, keep, cur, nil)
 					if err == nil {
 						stop := map[byte]bool{}
 						for ch := 0; ch < 256; ch++ {
